@@ -1,6 +1,7 @@
 """C01: end-to-end delivery between a real client and a real listener."""
 import json
 import os
+import re
 
 import vlib
 
@@ -43,6 +44,11 @@ def check(pid, tier, replay):
         clause, line, detail = f[0], int(f[1]), (f[2] if len(f) > 2 else "")
         r = rows[line - 1]
         key = "%s:%s" % (clause, detail) if detail else clause
+        if detail in ("RecvErr", "SetupErr"):
+            # name the error and the corner of the configuration space: a known finding must not cover other ways of losing a message
+            case = json.loads(cases[r["sc"]])
+            m = re.match(r"[A-Za-z]+", r.get("err", "") or "")
+            key = "%s:%s:credit=%s:dir=%s" % (key, m.group(0) if m else "unknown", case.get("credit"), case.get("dir"))
         if (r["sc"], key) in seen:
             continue
         seen.add((r["sc"], key))
